@@ -243,9 +243,9 @@ class _S:
 
 
 def _with_hyps(s, maxlen):
-    if s.ctx is None or maxlen == 0:
+    if s.ctx is None:
         return s
     t = _S()
     t.__dict__.update(s.__dict__)
-    t.hyps = s.ctx.hyps(extra_terms=list(range(0, min(maxlen, 12) + 1)))
+    t.hyps = s.ctx.hyps(extra_terms=list(range(0, min(maxlen, 12) + 1))) + list(s.ctx.definitions)
     return t
